@@ -1,6 +1,6 @@
 From Coq Require Import List NArith ZArith String Ascii Bool Lia.
 From WX Require Import Base.Show Base.Bytes Codec.Json Gen.Signals_gen Codec.Signals
-  Gen.FsKinds_gen Gen.EventNames_gen Codec.EventsJson.
+  Gen.FsKinds_gen Gen.EventNames_gen Codec.EventsJson Base.BytesProofs.
 Import ListNotations.
 Open Scope list_scope.
 
@@ -215,29 +215,6 @@ Proof.
 Qed.
 
 (* ---------- events ---------- *)
-Lemma ascii_ltb_irrefl a : ascii_ltb a a = false.
-Proof. unfold ascii_ltb. apply N.ltb_irrefl. Qed.
-Lemma ascii_ltb_asym a b : ascii_ltb a b = true -> ascii_ltb b a = false.
-Proof. unfold ascii_ltb. intro H. apply N.ltb_lt in H. apply N.ltb_ge. lia. Qed.
-
-Lemma ascii_ltb_total a b : ascii_ltb a b = false -> ascii_ltb b a = false -> a = b.
-Proof.
-  unfold ascii_ltb. intros H1 H2. apply N.ltb_ge in H1, H2.
-  assert (N_of_ascii a = N_of_ascii b) as E by lia.
-  rewrite <- (ascii_N_embedding a), <- (ascii_N_embedding b), E. reflexivity.
-Qed.
-
-Lemma str_ltb_asym a b : str_ltb a b = true -> str_ltb b a = false /\ String.eqb a b = false.
-Proof.
-  revert b. induction a as [|x a IH]; intros [|y b] H; simpl in *; try discriminate; try (split; reflexivity).
-  destruct (ascii_ltb x y) eqn:E1.
-  - rewrite (ascii_ltb_asym _ _ E1). split; [reflexivity|].
-    destruct (Ascii.eqb_spec x y) as [->|_]; [rewrite ascii_ltb_irrefl in E1; discriminate | reflexivity].
-  - destruct (ascii_ltb y x) eqn:E2; [discriminate|].
-    pose proof (ascii_ltb_total _ _ E1 E2) as ->. rewrite Ascii.eqb_refl.
-    apply IH. exact H.
-Qed.
-
 Fixpoint sorted_meta (m : list (string * list string)) : bool :=
   match m with
   | [] => true
